@@ -253,6 +253,23 @@ PROPS["C14"] = dict(
     assumptions=["the temporary name differs from the destination's name (CreateTemp's 'safe' + random digits)"],
 )
 
+PROPS["C19"] = dict(
+    n_quick=3000, n_thorough=300000, shards=8, coq_dirs=["C19"],
+    rule="cases: tar (2/3) and zip (1/3) archives of 1-5 entries - regular files, directories, symbolic links and (tar) hard links - with "
+         "names of 1-3 components over {a,b,c,lnk,x,.,..}, sometimes absolute or starting with '..', link targets inside and outside the "
+         "destination, absolute (below the scratch base) and relative with '..', dangling ones, masks {777,755,700}, recorded modes "
+         "{644,600,755,640,700,750}; the destination pre-seeded with 0-2 directories, files or symbolic links; extracted into <base>/dst next "
+         "to <base>/outside/secret with the working directory <base>/cwd; the whole tree under base is read back without following links "
+         "(types, permission bits, payloads, link targets, inode sharing) and compared with the symbolic file system of the model. "
+         "non-trivial = archive with a symbolic or hard link or a pre-seeded link; distinct = distinct case text",
+    trivial_class=r"(^bad$|^exn$|^tar/|^zip/)",
+    trusted_base=["the kernel's path resolution (symbolic links followed in directory position, O_CREAT through a dangling final link, link(2) not following) is modelled by [walk] and compared on every case, not verified",
+                  "archive/tar and archive/zip deliver the entries as written by the harness",
+                  "the modelled world is the scratch base directory: link targets that climb above it are not generated"],
+    assumptions=["the destination directory exists and is not itself reached through a symbolic link inside the modelled world",
+                 "no file below the destination shares an inode with a file outside it before extraction"],
+)
+
 # properties not (yet) claimed, with the reason; an entry is dropped automatically once the property is in PROPS
 NOT_APPLICABLE = {
     "C%02d" % i: "not yet built in this development (model and correspondence harness pending); see DESIGN.md section 22"
@@ -260,6 +277,19 @@ NOT_APPLICABLE = {
 }
 
 MANIFEST_TEXT = {
+    "C19": dict(
+        level_text="Proof: for every archive (any entries, names, link targets, order) and every initial file system with whatever symbolic links "
+                   "it contains, extraction creates, re-binds or removes no path outside the destination and leaves the content and mode of "
+                   "every file outside it unchanged, whether it succeeds or stops with an error (hypothesis: the destination exists and no "
+                   "inode is shared across its boundary beforehand; the hypothesis is re-established for the next extraction) -- Coq theorem "
+                   "over a symbolic file system with physical path resolution. The model is compared with real tar and zip extraction by "
+                   "reading the whole scratch tree back (types, modes, payloads, link targets, inode sharing, success flag); the oracle checks "
+                   "that everything outside the destination is as before and that a reported success reproduced every entry; entries cut "
+                   "short by a file-size limit must be reported.",
+        level_note="Partial: the kernel's path walk and the effect of open/mkdir/symlink/link are modelled and validated by the comparison, not "
+                   "verified; 'reproduces exactly the archive' is checked by the oracle for archives without links, not proved; I/O errors other "
+                   "than the size limit are not injected.",
+        technique="Coq proof (frame property and separation invariant by induction over entries) on a hand-written Gallina model of a symbolic file system + differential correspondence check"),
     "C14": dict(
         level_text="Proof: for every list of writer calls, every failure point of the writer and either outcome of the rename, at every prefix of "
                    "the system calls WriteFile issues (every crash point) the destination is its complete previous state or the complete new "
